@@ -1,6 +1,7 @@
 package main
 
 import (
+	"syscall"
 	"encoding/hex"
 	"encoding/json"
 	stderrors "errors"
@@ -86,6 +87,11 @@ func buildErr(recipe string) (err error, chainClass string, embeddedJSON string)
 		err = stderrors.New(uhs(b[1]))
 	case "S":
 		err = status.Error(codeByName(b[1]), uhs(b[2]))
+	case "P":
+		// a REAL OS error of the class: not the sentinel itself, errors.Is-equal to it through Errno.Is
+		errno := map[string]syscall.Errno{"ErrNotExist": syscall.ENOENT, "ErrExist": syscall.EEXIST, "ErrNotAuthorized": syscall.EACCES}[b[1]]
+		err = osErrValue{msg: uhs(b[2]), errno: errno}
+		chainClass = b[1]
 	}
 	for _, w := range parts[1:] {
 		f := strings.Split(w, ".")
@@ -95,10 +101,36 @@ func buildErr(recipe string) (err error, chainClass string, embeddedJSON string)
 		case "E":
 			embeddedJSON = uhs(f[1])
 			err = gerrors.EmbedObject(json.RawMessage(embeddedJSON), err)
+		case "W2":
+			// fmt.Errorf with TWO %w verbs: the chain so far on one side, a plain error on the other
+			esc := func(x string) string { return strings.ReplaceAll(uhs(x), "%", "%%") }
+			side := stderrors.New(uhs(f[5]))
+			if f[4] == "L" {
+				err = fmt.Errorf(esc(f[1])+"%w"+esc(f[2])+"%w"+esc(f[3]), err, side)
+			} else {
+				err = fmt.Errorf(esc(f[1])+"%w"+esc(f[2])+"%w"+esc(f[3]), side, err)
+			}
+		case "J":
+			side := stderrors.New(uhs(f[2]))
+			if f[1] == "L" {
+				err = stderrors.Join(err, side)
+			} else {
+				err = stderrors.Join(side, err)
+			}
 		}
 	}
 	return
 }
+
+// osErrValue stands for what os.Open & co. return (*fs.PathError around a syscall.Errno): it has its own text and
+// matches the class sentinel only through Errno.Is
+type osErrValue struct {
+	msg   string
+	errno syscall.Errno
+}
+
+func (o osErrValue) Error() string        { return o.msg }
+func (o osErrValue) Is(target error) bool { return o.errno.Is(target) }
 
 func buildErrSafe(recipe string) (err error, cls string, ej string) {
 	defer func() {
@@ -302,6 +334,62 @@ func runErrs(ctx *Ctx) {
 			do("markers %s", recipe)
 			do("is %s %s", recipe, cls)
 			do("is %s %s", recipe, names[(i+1)%len(names)])
+		}
+	}
+	// trees and OS errors: two-%w wrappers and errors.Join with a plain error on the other side, at every depth;
+	// bases that are real OS errors of the class (found only by the errors.Is loop, not by the map lookup)
+	ctx.R.Case("trees")
+	osCls := []string{"ErrNotExist", "ErrExist", "ErrNotAuthorized"}
+	for i, cls := range names {
+		bases := []string{"C." + cls}
+		for _, oc := range osCls {
+			if oc == cls {
+				bases = append(bases, "P."+cls+"."+hs("open /x/y: no such file or directory"), "P."+cls+"."+hs("stat: "+cls))
+			}
+		}
+		for bi, base := range bases {
+			for depth := 0; depth <= 3; depth++ {
+				for variant := 0; variant < 4; variant++ {
+					recipe := base
+					embedAt := (i + depth + variant) % (depth + 2) // sometimes none (== depth+1)
+					for d := 0; d <= depth; d++ {
+						if d == embedAt {
+							recipe += ";E." + hs(jsons[(i+d)%len(jsons)])
+						}
+						if d < depth {
+							tx := texts[(i+3*d+variant)%len(texts)]
+							if strings.Contains(tx, "\x1b") || tx == "json" || strings.Contains(tx, "jso") || strings.Contains(tx, "son") {
+								tx = "ctx: "
+							}
+							switch (variant + d + bi) % 4 {
+							case 0:
+								recipe += ";W2." + hs(tx) + "." + hs(" / ") + ".-." + []string{"L", "R"}[(d+variant)%2] + "." + hs("io: unexpected EOF")
+							case 1:
+								recipe += ";J." + []string{"L", "R"}[(d+variant)%2] + "." + hs("close: broken pipe")
+							case 2:
+								recipe += ";W." + hs(tx) + ".-"
+							default:
+								recipe += ";W2.-." + hs(tx) + "." + hs(" (again)") + "." + []string{"R", "L"}[(d+variant)%2] + "." + hs("second")
+							}
+						}
+					}
+					if probe, _, ej := buildErrSafe(recipe); probe == nil ||
+						strings.Count(probe.Error(), gerrors.VerifMarker()) != map[bool]int{true: 2, false: 0}[ej != ""] {
+						ctx.R.Branch("skipped: texts would form the marker")
+						continue
+					}
+					ctx.R.Nontrivial("tree or OS error")
+					do("code %s", recipe)
+					do("idem %s", recipe)
+					do("is %s %s", recipe, cls)
+					do("is %s %s", recipe, names[(i+1+variant)%len(names)])
+					do("israw %s %s", recipe, cls)
+					if embedAt <= depth {
+						do("ext %s", recipe)
+						do("markers %s", recipe)
+					}
+				}
+			}
 		}
 	}
 	// non-class bases and status bases (outside the property's hypothesis; model/code agreement only)
